@@ -474,3 +474,22 @@ func (ms *Mesh) Converge(r *rand.Rand, random bool) error {
 	}
 	return nil
 }
+
+// AddStub adds a node that only has an identity (no router): a place-holder
+// for the far end of a link whose traffic the harness produces itself.
+func (ms *Mesh) AddStub(id *m.Address) *Node {
+	n := &Node{Idx: len(ms.Nodes), ID: id, Links: map[int]*VLink{}}
+	ms.Nodes = append(ms.Nodes, n)
+	return n
+}
+
+// ConnectOneWay registers at node i a link to node j (which may be a stub).
+func (ms *Mesh) ConnectOneWay(i, j int, label m.SwitchLabel) error {
+	a, b := ms.Nodes[i], ms.Nodes[j]
+	la := &VLink{mesh: ms, from: a, to: b, label: label, latency: 5, started: time.Now()}
+	if err := a.Inst.PeeringV.AddLink(la); err != nil {
+		return err
+	}
+	a.Links[j] = la
+	return nil
+}
